@@ -260,6 +260,19 @@ def oracle(ctx, deep=False):
                         ctx.violations.append({"what": f"after set_config({n}={show(base)}): {label}({n}={show(v)}) "
                                                        + ("accepted out-of-domain value" if acc else "rejected in-domain value"),
                                                "input": {"entry": label, "name": n, "value": show(v), "index": i, "after": show(base)}})
+    # the same list object, made invalid in place after it was stored, is validated again when it is passed again
+    for label, fn in (("set_config", lambda x: tt.set_config(n_obs=x)), ("config_context", lambda x: tt.config_context(n_obs=x).__enter__())):
+        for bad in (-5, 2.5, 1, True, "a"):
+            _reset_config()
+            lst = [100, 200]
+            tt.set_config(n_obs=lst)
+            lst.append(bad)
+            acc, _ = _try(lambda: fn(lst))
+            _reset_config()
+            ctx.evaluations += 1
+            if acc:
+                ctx.violations.append({"what": f"{label}(n_obs=<stored list, now containing {show(bad)}>) accepted an out-of-domain value",
+                                       "input": {"entry": label, "name": "n_obs", "value": f"[100, 200, {show(bad)}] (same object as stored)", "index": -2}})
     # adjust_fdr / adjust_fwer validate their parameters whatever the selection (also when no metric is selected)
     for label, fn in (("adjust_fdr", tt.adjust_fdr), ("adjust_fwer", tt.adjust_fwer)):
         for sel_label, res, sel in (("empty results", {}, None), ("empty selection", tt.experiment.ExperimentResult({}), ()),
